@@ -408,12 +408,28 @@ impl NetworkInner {
 
     async fn connect(&self, addr: Address, peer_id: Option<PeerId>) -> Result<PeerId> {
         let (sender, receiver) = oneshot::channel();
+        #[cfg(bmwill_anemo_verif)]
+        crate::verif::trace(format!("api own={} submit kind=connect", self.peer_id()));
         self.connection_manager_handle
             .send(ConnectionManagerRequest::ConnectRequest(
                 addr, peer_id, sender,
             ))
             .await
             .map_err(|_| anyhow!("network has been shutdown"))?;
+        #[cfg(bmwill_anemo_verif)]
+        crate::verif::trace(format!("api own={} submitted kind=connect", self.peer_id()));
+        #[cfg(bmwill_anemo_verif)]
+        let receiver = {
+            let own = self.peer_id();
+            async move {
+                let r = receiver.await;
+                crate::verif::trace(format!(
+                    "api own={own} answered kind=connect ok={}",
+                    matches!(r, Ok(Ok(_)))
+                ));
+                r
+            }
+        };
         receiver.await?
     }
 
@@ -445,10 +461,23 @@ impl NetworkInner {
 
     async fn shutdown(&self) -> Result<()> {
         let (sender, receiver) = oneshot::channel();
+        #[cfg(bmwill_anemo_verif)]
+        crate::verif::trace(format!("api own={} submit kind=shutdown", self.peer_id()));
         self.connection_manager_handle
             .send(ConnectionManagerRequest::Shutdown(sender))
             .await
             .map_err(|_| anyhow!("network has been shutdown"))?;
+        #[cfg(bmwill_anemo_verif)]
+        crate::verif::trace(format!("api own={} submitted kind=shutdown", self.peer_id()));
+        #[cfg(bmwill_anemo_verif)]
+        let receiver = {
+            let own = self.peer_id();
+            async move {
+                let r = receiver.await;
+                crate::verif::trace(format!("api own={own} answered kind=shutdown ok={}", r.is_ok()));
+                r
+            }
+        };
         receiver.await.map_err(Into::into)
     }
 
